@@ -36,8 +36,17 @@ var c13Keys = []struct{ text, seq string }{
 	{`"\C-a"`, "\x01"}, {`"ab"`, "ab"}, {`"\e[A"`, "\x1b[A"}, {`Control-b`, "\x02"}, {`"\\"`, "\\"}, {`TAB`, "\t"}, {`"\C-?"`, "\x7f"}, {`x`, "x"},
 }
 
+// c13KeyIdx: the i-th bind uses the i-th notation, except "same-key" binds which all use
+// notation 0 (so that re-binding one key, function <-> macro, is enumerated).
+func c13KeyIdx(s c13Stmt, id int) int {
+	if s.Arg == "same-key" {
+		return 0
+	}
+	return 1 + id%(len(c13Keys)-1)
+}
+
 var c13Leaves = []c13Stmt{
-	{Kind: "bindf"}, {Kind: "bindm"}, {Kind: "setstr"}, {Kind: "setint"},
+	{Kind: "bindf"}, {Kind: "bindm"}, {Kind: "bindf", Arg: "same-key"}, {Kind: "bindm", Arg: "same-key"}, {Kind: "setstr"}, {Kind: "setint"},
 	{Kind: "setkm", Arg: "vi-command"}, {Kind: "setkm", Arg: "vi-insert"},
 	{Kind: "comment"}, {Kind: "include", Arg: "f0"},
 }
@@ -110,10 +119,10 @@ func c13Print(p []c13Stmt, id *int, sb *strings.Builder, indent string) {
 		switch s.Kind {
 		case "bindf":
 			*id++
-			fmt.Fprintf(sb, "%s%s: cmd%d\n", indent, c13Keys[*id%len(c13Keys)].text, *id)
+			fmt.Fprintf(sb, "%s%s: cmd%d\n", indent, c13Keys[c13KeyIdx(s, *id)].text, *id)
 		case "bindm":
 			*id++
-			fmt.Fprintf(sb, "%s%s: \"m%d\"\n", indent, c13Keys[*id%len(c13Keys)].text, *id)
+			fmt.Fprintf(sb, "%s%s: \"m%d\"\n", indent, c13Keys[c13KeyIdx(s, *id)].text, *id)
 		case "setstr":
 			*id++
 			fmt.Fprintf(sb, "%sset var%d val%d\n", indent, *id, *id)
@@ -170,7 +179,7 @@ func c13Eval(p []c13Stmt, st c13Setting, active bool, km *string, id *int, out *
 				if s.Kind == "bindm" {
 					a = fmt.Sprintf("m%d|true", *id)
 				}
-				out.binds[*km+"\x00"+c13Keys[*id%len(c13Keys)].seq] = a
+				out.binds[*km+"\x00"+c13Keys[c13KeyIdx(s, *id)].seq] = a
 			}
 		case "setstr":
 			*id++
